@@ -71,6 +71,6 @@ Definition scope_eqb (a b : scope) : bool :=
 Inductive event :=
 | EvEcho (tag : N) (status : Z)
 | EvStart (s : sig) (status : Z)
-| EvEnd (s : sig) (exited : bool)
+| EvEnd (s : sig) (exited : option Z)   (* Some n: the handler's own run ended in `exit` with status n *)
 | EvSubBegin
 | EvSubEnd.
